@@ -10,11 +10,33 @@ from pydsol.core.streams import (MersenneTwister, SimpleStreamUpdater,      # no
                                  StreamSeedUpdater)
 
 
+class _Missing(dict):
+    """A dict subclass whose [] answers None for unknown keys."""
+
+    def __missing__(self, key):
+        return None
+
+
+def make_table(case, items):
+    """The seed table in the mapping type the case asks for (all are dicts)."""
+    import collections
+    tt = case.get("table_type", "dict")
+    if tt == "defaultdict":
+        t = collections.defaultdict(list)
+        t.update(items)
+        return t
+    if tt == "missing":
+        return _Missing(items)
+    if tt == "ordered":
+        return collections.OrderedDict(items)
+    return dict(items)
+
+
 def evaluate(case, reverse):
     names = case["names"]
     order = list(reversed(names)) if reverse else list(names)
     streams = {n: MersenneTwister(case["seeds"][n]) for n in order}
-    table = {n: case["table"][n] for n in order if n in case["table"]}
+    table = make_table(case, [(n, case["table"][n]) for n in order if n in case["table"]])
     upd = SimpleStreamUpdater() if case["updater"] == "simple" else StreamSeedUpdater(table)
     out = {}
     try:
